@@ -63,14 +63,15 @@ def run(ctx):
     ctx.tlc_check("chain", "MCBlockBlob.tla", "BlockBlob_memo_purged_loc.cfg", timeout=600)
     if thorough:
         for fam in ("num", "hdr", "blob", "su", "l1"):
-            ctx.tlc_check("chain", "MCBlockBlob.tla", "BlockBlob_memo_purged_%s.cfg" % fam, timeout=900)
+            r = ctx.tlc_check("chain", "MCBlockBlob.tla", "BlockBlob_memo_purged_%s.cfg" % fam, timeout=900, coverage=True)
+            vlib.require_actions_covered(r)
         r = ctx.tlc_check("chain", "MCBlockBlob.tla", "BlockBlob_reorg_many.cfg", timeout=1800, coverage=True)
-        vlib.require_actions_covered(r)
+        vlib.require_actions_covered(r, ignore=("ReadAny",))      # no reader-level memo in the code as it is
         ctx.tlc_check("chain", "MCBlockBlob.tla", "BlockBlob_reorg_thorough.cfg", timeout=3000)
     if thorough:
         ctx.tlc_check("chain", "MCBlockBlob.tla", "BlockBlob_wide.cfg", timeout=1800)
         r = ctx.tlc_check("chain", "MCBlockBlob.tla", "BlockBlob_deep.cfg", timeout=1800, coverage=True)
-        vlib.require_actions_covered(r)
+        vlib.require_actions_covered(r, ignore=("Revert", "ReadAny"))   # the append-only instance
         ctx.tlc_check("chain", "MCBlockBlob.tla", "BlockBlob_thorough.cfg", timeout=3000)
 
     nruns = 6 if thorough else 1
